@@ -21,52 +21,86 @@ TECHNIQUE = 'Lean 4 proof (ordered-field algebra with Int.ceil) over a hand mode
 GEN = ['Effects']
 OPS = ['C17']
 RULE = ('cases: planes with smooth (super-Gaussian edge) amplitude and low-order polynomial OPD on grids 24..56 (even/odd, non-square), '
-        'monolithic or 2..3 segment masks, float or integer mask dtype, already rescaled planes (rescale of a rescale), dyadic scale '
-        'factors 0.5..4 incl. non-integers and 1, resample to target pixel scales; distinct = (shape, segments, scale, kind); '
-        'non-trivial = scale != 1 or segmented or non-square')
-TRUSTED = ['scipy.ndimage.map_coordinates reproduces the samples at integer coordinates (hypothesis of rescale_one_is_identity; observed to 1e-12)',
+        'monolithic or 2..3 segment masks, float or integer mask dtype, uniform / per-axis (px, 1.5 px) / absent pixel scale, scalar '
+        'amplitude or OPD, planes already carrying recorded tilt, already rescaled planes (rescale of a rescale), dyadic scale factors '
+        '0.5..4 incl. non-integers and 1, resample to target pixel scales and resample refusals (no / non-uniform pixel scale); after '
+        'every call the RESULT is worked on in place (fit_tilt(inplace), += on opd/amplitude, tilt.append, mask overwrite, opd '
+        'assignment) and the original is compared again (bytes, tilt list, slices, memory sharing); the interpolation grid is read '
+        'back from the code by rescaling linear ramps and compared with the model grid sample by sample; distinct = (shape, '
+        'segments, scale, kind, pixel-scale mode, scalar flags); non-trivial = scale != 1 or segmented or non-square or refusal')
+TRUSTED = ['scipy.ndimage.map_coordinates reproduces the samples at integer coordinates (hypothesis of rescale_one_is_identity; observed to 1e-12) '
+           'and its order-1 interpolant reproduces linear ramps (used to read the grid back)',
            'np.ceil / float division agree with exact rational arithmetic on the dyadic scale factors used']
 UNPROVEN = ['transmitted power sum|amplitude|^2 is preserved to interpolation accuracy: measured (relative tolerance 2e-3 down-sampling, '
             '1e-3 otherwise, on apertures smooth on the grid; the unchanged tree stays below 2e-4)',
-            'the propagated image at a fixed output sampling is preserved to interpolation accuracy: measured (peak-normalised tolerance 3e-3; unchanged tree below 3e-4)']
+            'rescaled amplitude (times s) and OPD equal the generating aperture/surface functions on the new grid (registration about the '
+            'geometric centre): measured on every case (tolerances 1e-2 / 5e-2 of the OPD scale; unchanged tree below 1.4e-3 / 8e-3)',
+            'the propagated image at a fixed output sampling is preserved to interpolation accuracy: measured (peak-normalised tolerance 3e-3; unchanged tree below 3e-4)',
+            'which arrays Plane.rescale interpolates and that it leaves the original untouched under later in-place work on the result: '
+            'modelled (Model/Rescale.lean planePixelscale/amplitudeFactor/interpolated) and compared, original-untouched via the regenerated '
+            'effect table (copy.copy counts as sharing) plus snapshots; not a theorem about NumPy',
+            'segment masks stay disjoint, non-empty and cover the aperture support: oracle only (mask_binary_segments_kept only states 0/1 values and the count)']
 ASSUMPTIONS = ['apertures and OPDs are smooth on the sampling grid (property quantifier); scale factors are dyadic so float and exact ceil agree']
 
 SCALES = [0.5, 0.75, 1.0, 1.25, 1.5, 2.0, 2.5, 3.0, 4.0]
 
 def generate(rng, tier):
-    n = {'quick': 60, 'thorough': 600, 'search': 150}[tier]
+    n = {'quick': 70, 'thorough': 700, 'search': 150}[tier]
     out = []
     for k in range(n):
         n0 = int(rng.integers(24, 57)); n1 = n0 if rng.integers(0, 3) == 0 else int(rng.integers(24, 57))
         c = {'kind': 'rescale', 'shape': [n0, n1], 'segments': [1, 1, 2, 3][int(rng.integers(0, 4))], 'scale': SCALES[int(rng.integers(0, len(SCALES)))],
-             'px': [1e-3, 2.5e-3, 0.5][int(rng.integers(0, 3))], 'hseed': int(rng.integers(0, 2**31)),
+             'px': [1e-3, 2.5e-3, 0.5][int(rng.integers(0, 3))], 'pxmode': 'uniform', 'hseed': int(rng.integers(0, 2**31)),
+             'amp_scalar': False, 'opd_scalar': False, 'pre_tilt': bool(rng.integers(0, 2)),
              'int_mask': bool(rng.integers(0, 4) == 0), 'twice': bool(rng.integers(0, 5) == 0), 'propagate': bool(k % 4 == 0)}
         if k % 7 == 3: c['scale'] = 1.0
-        if k % 5 == 4:
-            c['kind'] = 'resample'; c['new_px'] = c['px'] / c['scale']
+        t = k % 10
+        if t == 4: c['kind'] = 'resample'; c['new_px'] = c['px'] / c['scale']
+        elif t == 5: c['pxmode'] = 'peraxis'; c['propagate'] = False
+        elif t == 6: c['pxmode'] = 'none'; c['propagate'] = False; c['pre_tilt'] = False
+        elif t == 7: c['opd_scalar'] = True; c['pre_tilt'] = False
+        elif t == 8 and k % 20 == 8: c['amp_scalar'] = True; c['propagate'] = False
+        elif t == 9:
+            c['kind'] = 'refuse'; c['pxmode'] = ['none', 'peraxis'][int(rng.integers(0, 2))]; c['new_px'] = c['px'] / c['scale']
+            c['propagate'] = False; c['twice'] = False; c['pre_tilt'] = False
         out.append(c)
     return out
 
-def signature(c): return f"{c['kind']} {c['shape']} seg={c['segments']} s={c['scale']} int={c['int_mask']} twice={c['twice']}"
-def nontrivial(c): return c['scale'] != 1.0 or c['segments'] > 1 or c['shape'][0] != c['shape'][1]
+def signature(c): return (f"{c['kind']} {c['shape']} seg={c['segments']} s={c['scale']} px={c['pxmode']} int={c['int_mask']} twice={c['twice']} "
+                          f"a0={c['amp_scalar']} o0={c['opd_scalar']}")
+def nontrivial(c): return c['scale'] != 1.0 or c['segments'] > 1 or c['shape'][0] != c['shape'][1] or c['kind'] == 'refuse'
 def tags(c):
-    t = [c['kind'], f"scale:{c['scale']}", f"segments:{c['segments']}"]
+    t = [c['kind'], f"scale:{c['scale']}", f"segments:{c['segments']}", 'px:' + c['pxmode']]
     if c['shape'][0] != c['shape'][1]: t.append('non-square')
     if c['shape'][0] % 2: t.append('odd-rows')
     if c['int_mask']: t.append('int-mask')
     if c['twice']: t.append('rescale-of-rescale')
+    if c['amp_scalar']: t.append('scalar-amplitude')
+    if c['opd_scalar']: t.append('scalar-opd')
+    if c['pre_tilt']: t.append('plane-with-recorded-tilt')
     return t
 
+def _px2(c):
+    if c['pxmode'] == 'none': return None
+    if c['pxmode'] == 'peraxis': return (c['px'], c['px'] * 1.5)
+    return (c['px'], c['px'])
+
+def _analytic(c, yi, xi):
+    """amplitude and OPD of the test plane at (fractional) array coordinates yi (rows), xi (cols)"""
+    n0, n1 = c['shape']
+    co = np.random.default_rng(c['hseed']).uniform(-1, 1, 5)
+    y = (yi - n0 // 2) / (0.36 * n0); x = (xi - n1 // 2) / (0.36 * n1)
+    r2 = x * x + y * y
+    amp = np.exp(-r2 ** 4)
+    opd = 5e-8 * (co[0] * x + co[1] * y + co[2] * x * y + co[3] * (2 * r2 - 1) + co[4] * (x * x - y * y))
+    return amp, opd
+
 def _plane(c, lentil):
-    rng = np.random.default_rng(c['hseed'])
     n0, n1 = c['shape']
     yy, xx = np.mgrid[0:n0, 0:n1]
-    y = (yy - n0 // 2) / (0.36 * n0); x = (xx - n1 // 2) / (0.36 * n1)
-    r2 = x * x + y * y
-    amp = np.exp(-r2 ** 4)                       # smooth-edged aperture, ~0 at the array border
+    amp, opd = _analytic(c, yy.astype(float), xx.astype(float))   # smooth-edged aperture, ~0 at the array border
     amp[amp < 1e-6] = 0
-    co = rng.uniform(-1, 1, 5)
-    opd = 5e-8 * (co[0] * x + co[1] * y + co[2] * x * y + co[3] * (2 * r2 - 1) + co[4] * (x * x - y * y)) * (amp > 0)
+    opd = opd * (amp > 0)
     S = c['segments']
     base = (amp > 0).astype(float)
     if S == 1: mask = base
@@ -74,96 +108,179 @@ def _plane(c, lentil):
         mask = np.zeros((S, n0, n1)); e = np.linspace(0, n1, S + 1).astype(int)
         for s in range(S): mask[s, :, e[s]:e[s + 1]] = base[:, e[s]:e[s + 1]]
     if c['int_mask']: mask = mask.astype(int)
-    return lentil.Pupil(amplitude=amp, opd=opd, mask=mask, pixelscale=c['px'], focal_length=10.0)
+    P = lentil.Pupil(amplitude=(0.75 if c['amp_scalar'] else amp), opd=(2.5e-8 if c['opd_scalar'] else opd), mask=mask,
+                     pixelscale=_px2(c), focal_length=10.0)
+    if c['pre_tilt'] and S == 1: P.fit_tilt(inplace=True)      # a plane that already carries recorded tilt
+    return P
 
 def _state(P):
-    return (np.asarray(P.amplitude).tobytes(), np.asarray(P.opd).tobytes(), np.asarray(P.mask).tobytes(), P.pixelscale, len(P.tilt))
+    return (np.asarray(P.amplitude).tobytes(), np.asarray(P.opd).tobytes(), np.asarray(P.mask).tobytes(), P.pixelscale,
+            [(float(t.x), float(t.y)) for t in P.tilt], str(P.ptype), [(s[0].start, s[0].stop, s[1].start, s[1].stop) for s in P._slice] if P._slice and P._slice != [Ellipsis] and all(isinstance(s, tuple) for s in P._slice) else repr(P._slice))
+
+def _shares(a, b):
+    a, b = np.asarray(a), np.asarray(b)
+    return bool(a is b or np.shares_memory(a, b))
 
 def impl(c):
     lentil = vlib.import_lentil()
     P = _plane(c, lentil)
     before = _state(P)
+    res = {}
     with warnings.catch_warnings():
         warnings.simplefilter('ignore')
         try:
-            if c['kind'] == 'resample': Q = P.resample(c['new_px'])
+            if c['kind'] in ('resample', 'refuse'): Q = P.resample(c['new_px'])
             else: Q = P.rescale(c['scale'])
-            res = {}
             if c['twice']:
                 Q2 = Q.rescale(1 / c['scale'])
-                res['twice_shape'] = list(Q2.shape); res['twice_px'] = [float(v) for v in Q2.pixelscale]
+                res['twice_shape'] = list(Q2.shape); res['twice_px'] = None if Q2.pixelscale is None else [float(v) for v in Q2.pixelscale]
         except Exception as e:
-            return {'exc': type(e).__name__, 'msg': str(e)[:160]}
-    m = np.asarray(Q.mask)
-    res.update({'shape': list(Q.shape), 'amp_shape': list(np.shape(Q.amplitude)), 'opd_shape': list(np.shape(Q.opd)), 'mask_shape': list(m.shape),
-                'px': [list(float(v).as_integer_ratio()) for v in Q.pixelscale], 'mask_values': sorted(set(np.unique(m).tolist())),
-                'mask_dtype': str(m.dtype), 'nseg': int(Q.size), 'untouched': _state(P) == before, 'is_new': Q is not P,
-                'power0': float(np.sum(np.abs(P.amplitude) ** 2)), 'power1': float(np.sum(np.abs(Q.amplitude) ** 2)),
-                'seg_overlap': int(np.max(np.sum(m, axis=0))) if m.ndim == 3 else 1})
-    if c['scale'] == 1.0:
-        res['id_amp'] = float(np.max(np.abs(Q.amplitude - P.amplitude))); res['id_opd'] = float(np.max(np.abs(Q.opd - P.opd)) / 5e-8)
-        res['id_mask'] = bool(np.array_equal(np.asarray(Q.mask), (np.asarray(P.mask) != 0).astype(int)))
-    if c['propagate']:
-        def img(pl):
-            w = lentil.Wavefront(650e-9) * pl
-            return lentil.propagate_dft(w, pixelscale=5e-6 * 1e-3 / c['px'] * (1 if c['px'] < 0.1 else 1), shape=32, oversample=2).intensity
-        du = 650e-9 * 10.0 / (c['px'] * c['shape'][1]) / 3     # ~3 samples per lambda*f/D
-        def img2(pl):
-            w = lentil.Wavefront(650e-9) * pl
-            return lentil.propagate_dft(w, pixelscale=du, shape=32, oversample=2).intensity
-        a, b = img2(P), img2(Q)
-        res['img_diff'] = float(np.max(np.abs(a - b)) / np.max(a)); res['img_sum'] = [float(a.sum()), float(b.sum())]
+            return {'exc': type(e).__name__, 'msg': str(e)[:160], 'untouched': _state(P) == before}
+        m = np.asarray(Q.mask)
+        A = np.asarray(Q.amplitude); O = np.asarray(Q.opd)
+        res.update({'shape': list(Q.shape), 'amp_shape': list(A.shape), 'opd_shape': list(O.shape), 'mask_shape': list(m.shape),
+                    'px': None if Q.pixelscale is None else [list(float(v).as_integer_ratio()) for v in Q.pixelscale],
+                    'mask_values': sorted(set(np.unique(m).tolist())), 'mask_dtype': str(m.dtype), 'nseg': int(Q.size), 'is_new': Q is not P,
+                    'seg_overlap': int(np.max(np.sum(m, axis=0))) if m.ndim == 3 else 1,
+                    'seg_nonempty': bool(all(np.any(x) for x in (m if m.ndim == 3 else [m])))})
+        if not c['amp_scalar']:
+            res['power0'] = float(np.sum(np.abs(P.amplitude) ** 2)); res['power1'] = float(np.sum(np.abs(A) ** 2))
+            # direct comparison with the generating functions on the new grid (physical registration: the geometric centre is kept)
+            S0, S1 = A.shape; n0, n1 = c['shape']; s = c['scale']
+            yi = (np.arange(S0) - S0 / 2) / s + n0 / 2; xi = (np.arange(S1) - S1 / 2) / s + n1 / 2
+            YI, XI = np.meshgrid(yi, xi, indexing='ij')
+            ra, ro = _analytic(c, YI, XI)
+            inner = ra > 0.5
+            res['amp_err'] = float(np.max(np.abs(A * s - ra)[inner]))
+            if not c['opd_scalar'] and not c['pre_tilt']: res['opd_err'] = float(np.max(np.abs(O - ro)[inner]) / 5e-8)
+            gm = m if m.ndim == 2 else m.sum(axis=0)
+            res['mask_covers_support'] = bool(np.all(gm[ra > 0.05] == 1))
+        else:
+            res['amp_same'] = bool(A.shape == () and float(A) == 0.75)
+        if c['opd_scalar']: res['opd_same'] = bool(O.shape == () and float(O) == 2.5e-8)
+        # the interpolation grid, read back from the code: rescale linear ramps with the first-order interpolant
+        n0, n1 = c['shape']
+        ry = np.repeat(np.arange(n0, dtype=float)[:, None], n1, axis=1); rx = np.repeat(np.arange(n1, dtype=float)[None, :], n0, axis=0)
+        gy = lentil.rescale(ry, c['scale'], mask=np.ones_like(ry), order=1, mode='nearest', unitary=False)
+        gx = lentil.rescale(rx, c['scale'], mask=np.ones_like(rx), order=1, mode='nearest', unitary=False)
+        res['grid_y'] = [float(v) for v in gy[:, 0]]; res['grid_x'] = [float(v) for v in gx[0, :]]
+        if c['scale'] == 1.0:
+            res['id_amp'] = float(np.max(np.abs(A - np.asarray(P.amplitude)))); res['id_opd'] = float(np.max(np.abs(O - np.asarray(P.opd))) / 5e-8)
+            res['id_mask'] = bool(np.array_equal(m, (np.asarray(P.mask) != 0).astype(int)))
+        if c['propagate']:
+            du = 650e-9 * 10.0 / (c['px'] * c['shape'][1]) / 3     # ~3 samples per lambda*f/D
+            def img2(pl):
+                w = lentil.Wavefront(650e-9) * pl
+                return lentil.propagate_dft(w, pixelscale=du, shape=32, oversample=2).intensity
+            a, b = img2(P), img2(Q)
+            res['img_diff'] = float(np.max(np.abs(a - b)) / np.max(a))
+        # ---- follow-up in-place work on the RESULT: the original must not notice
+        res['shares'] = [k for k, (x, y) in {'amplitude': (Q.amplitude, P.amplitude), 'opd': (Q.opd, P.opd), 'mask': (Q.mask, P.mask)}.items() if _shares(x, y)]
+        res['tilt_list_shared'] = Q.tilt is P.tilt
+        try:
+            if Q.pixelscale is not None and O.ndim == 2: Q.fit_tilt(inplace=True)
+            for arr in (Q.opd, Q.amplitude):
+                if isinstance(arr, np.ndarray) and arr.flags.writeable: arr += arr * 1e-3 + 1e-12
+            Q.tilt.append(lentil.Tilt(x=1e-6, y=-1e-6))
+            if isinstance(Q.mask, np.ndarray) and Q.mask.flags.writeable: Q.mask[...] = 0
+            Q.opd = np.zeros(Q.shape)
+        except Exception as e:
+            res['followup_exc'] = f'{type(e).__name__}: {e}'[:120]
+    res['untouched'] = _state(P) == before
     return res
 
 def _fr(x): return Fr(x)
+def _rat(x): f = Fr(x); return [f.numerator, f.denominator]
 def requests(c, io):
-    s = _fr(c['scale']); px = _fr(c['px'])
-    r = [{'op': 'rs.meta', 'shape': c['shape'], 'scale': [s.numerator, s.denominator], 'px': [px.numerator, px.denominator]}]
+    px2 = _px2(c)
+    pj = None if px2 is None else [_rat(px2[0]), _rat(px2[1])]
+    if c['kind'] == 'refuse':
+        return [{'op': 'rs.resample_guard', 'px2': pj, 'new': _rat(c['new_px'])}]
+    r = [{'op': 'rs.coords', 'shape': c['shape'], 'scale': _rat(c['scale'])},
+         {'op': 'rs.plane', 'scale': _rat(c['scale']), 'px2': pj, 'amp_ndim': 0 if c['amp_scalar'] else 2, 'opd_ndim': 0 if c['opd_scalar'] else 2}]
     if c['kind'] == 'resample':
-        nw = _fr(c['new_px'])
-        r.append({'op': 'rs.resample', 'px': [px.numerator, px.denominator], 'new': [nw.numerator, nw.denominator]})
+        r.append({'op': 'rs.resample_guard', 'px2': pj, 'new': _rat(c['new_px'])})
     return r
 
 def compare(c, io, mo):
-    m = mo[0]
+    if c['kind'] == 'refuse':
+        g = mo[0]
+        if g.get('ok'): return 'model accepts the resample'
+        return None if io.get('exc') == g.get('err') else f"resample guard: implementation {io.get('exc', 'returned a plane')}, model {g.get('err')}"
     if 'exc' in io: return f"implementation raised {io['exc']}: {io['msg']}"
-    if not m.get('ok'): return f"model refused {m.get('err')}"
-    for key in ('shape', 'amp_shape', 'opd_shape'):
-        if io[key] != m['shape']: return f"{key}: implementation {io[key]}, model {m['shape']}"
+    m, pl = mo[0], mo[1]
+    if not m.get('ok') or not pl.get('ok'): return f"model refused {m.get('err')} {pl.get('err')}"
+    if io['shape'] != m['shape']: return f"shape: implementation {io['shape']}, model {m['shape']}"
     if io['mask_shape'][-2:] != m['shape']: return f"mask shape {io['mask_shape']}, model {m['shape']}"
-    want = Fr(m['pixelscale'][0], m['pixelscale'][1])
-    for v in io['px']:
-        got = Fr(v[0], v[1])
-        if abs(got - want) > Fr(1, 10**14) * abs(want): return f"pixelscale: implementation {float(got)!r}, model {float(want)!r}"
+    if io['amp_shape'] != (m['shape'] if pl['amp_interp'] else []): return f"amplitude shape {io['amp_shape']} (interpolated: {pl['amp_interp']})"
+    if io['opd_shape'] != (m['shape'] if pl['opd_interp'] else []): return f"opd shape {io['opd_shape']} (interpolated: {pl['opd_interp']})"
+    # pixel scale, per axis
+    if (io['px'] is None) != (pl['px'] is None): return f"pixelscale: implementation {io['px']}, model {pl['px']}"
+    if io['px'] is not None:
+        for k in range(2):
+            got = Fr(*io['px'][k]); want = Fr(*pl['px'][k])
+            if abs(got - want) > Fr(1, 10**14) * abs(want): return f"pixelscale[{k}]: implementation {float(got)!r}, model {float(want)!r}"
+    # the interpolation grid itself (centre convention and spacing), wherever the coordinate lies inside the input array
+    n0, n1 = c['shape']
+    for name, got, want, n in (('row', io['grid_y'], m['y'], n0), ('column', io['grid_x'], m['x'], n1)):
+        if len(got) != len(want): return f'{name} grid length {len(got)} vs {len(want)}'
+        for k, (g, wq) in enumerate(zip(got, want)):
+            wv = Fr(wq[0], wq[1])
+            if 0 <= wv <= n - 1 and abs(g - float(wv)) > 1e-9 * (1 + n): return f"{name} coordinate of output sample {k}: implementation {g!r}, model {float(wv)!r}"
     if c['kind'] == 'resample':
-        w2 = Fr(mo[1]['pixelscale'][0], mo[1]['pixelscale'][1])
-        if abs(w2 - _fr(c['new_px'])) > Fr(1, 10**14) * w2: return 'model: resample does not give the requested pixel scale'
+        g = mo[2]
+        if not g.get('ok'): return f"model refuses the resample ({g.get('err')})"
+        if abs(Fr(*g['scale']) - _fr(c['scale'])) > Fr(1, 10**12): return 'model: resample scale is not px/new'
     return None
 
 def oracle(c, io):
+    if c['kind'] == 'refuse':
+        want = 'ValueError' if c['pxmode'] == 'none' else 'NotImplementedError'
+        if io.get('exc') != want: return f"resample of a plane with {c['pxmode']} pixel scale: {io.get('exc', 'accepted')}, expected {want}"
+        return None if io['untouched'] else 'refused resample modified the plane'
     if 'exc' in io: return f"{c['kind']} raised {io['exc']}: {io['msg']}"
     s = _fr(c['scale']); n0, n1 = c['shape']
     want_shape = [math.ceil(n0 * s), math.ceil(n1 * s)]
     if io['shape'] != want_shape: return f"shape {io['shape']}, expected ceil(n*s) = {want_shape}"
-    px = [v[0] / v[1] for v in io['px']]
-    want_px = c['px'] / c['scale'] if c['kind'] == 'rescale' else c['new_px']
-    if any(abs(p - want_px) > 1e-14 * want_px for p in px): return f"pixel scale {px}, expected {want_px}"
+    px2 = _px2(c)
+    if px2 is None:
+        if io['px'] is not None: return f"plane without pixel scale came back with {io['px']}"
+    else:
+        px = [v[0] / v[1] for v in io['px']]
+        for k in range(2):
+            want_px = px2[k] / c['scale']
+            if abs(px[k] - want_px) > 1e-14 * want_px: return f"pixel scale {px}, expected {[p / c['scale'] for p in px2]}"
+            ext_new, ext_old = px[k] * io['shape'][k], px2[k] * c['shape'][k]
+            if not (-1e-12 * ext_old <= ext_new - ext_old < px[k] * (1 + 1e-12)): return f'extent changed by more than one sample: {ext_old} -> {ext_new}'
     if not set(io['mask_values']) <= {0, 1}: return f"mask not binary: {io['mask_values'][:5]}"
+    if not io['mask_dtype'].startswith('int'): return f"mask dtype {io['mask_dtype']}"
     if io['nseg'] != c['segments']: return f"{io['nseg']} segments, had {c['segments']}"
     if io['seg_overlap'] > 1: return 'rescaled segment masks overlap'
-    if not io['untouched'] or not io['is_new']: return 'the original plane was modified'
-    for k in range(2):
-        ext_new, ext_old = px[k] * io['shape'][k], c['px'] * c['shape'][k]
-        if not (-1e-12 * ext_old <= ext_new - ext_old < px[k] * (1 + 1e-12)): return f'extent changed by more than one sample: {ext_old} -> {ext_new}'
-    if c['scale'] == 1.0:
+    if not io['seg_nonempty']: return 'a segment mask came back empty'
+    # ---- original untouched, also after in-place work on the result
+    if not io['is_new']: return 'rescale returned the plane itself'
+    if io['shares']: return f"the rescaled plane shares memory with the original: {io['shares']}"
+    if io['tilt_list_shared']: return 'the rescaled plane shares its tilt list with the original'
+    if not io['untouched']: return 'the original plane changed (possibly through in-place work on the rescaled plane)'
+    if 'followup_exc' in io: return f"in-place work on the rescaled plane raised {io['followup_exc']}"
+    if c['amp_scalar'] and not io['amp_same']: return 'a scalar amplitude was changed by rescale'
+    if c['opd_scalar'] and not io['opd_same']: return 'a scalar OPD was changed by rescale'
+    if c['scale'] == 1.0 and not c['amp_scalar']:
         if io['id_amp'] > 1e-12 or io['id_opd'] > 1e-9 or not io['id_mask']: return f"scale 1 is not the identity (amp {io['id_amp']:.2g}, opd {io['id_opd']:.2g}, mask {io['id_mask']})"
     if c['twice']:
         back = [math.ceil(math.ceil(n * s) / s) for n in (n0, n1)]
         if io['twice_shape'] != back: return f"rescale of a rescaled plane: shape {io['twice_shape']}, expected {back}"
-        if any(abs(p - c['px']) > 1e-14 * c['px'] for p in io['twice_px']): return f"rescale by s then 1/s: pixel scale {io['twice_px']}"
-    # ---- measured clause (unproven): interpolation accuracy on smooth apertures
-    rel = abs(io['power1'] - io['power0']) / io['power0']
-    tol = 2e-3 if c['scale'] < 1 else 1e-3      # unchanged tree: <= 1.8e-4 / 8.1e-5 on seeds 0-5
-    if rel > tol: return f"transmitted power changed by {rel:.3g} (tolerance {tol}) at scale {c['scale']}"
+        if px2 is not None and any(abs(p - q) > 1e-14 * q for p, q in zip(io['twice_px'], px2)): return f"rescale by s then 1/s: pixel scale {io['twice_px']}"
+    # ---- measured clauses (unproven): interpolation accuracy on smooth apertures
+    if not c['amp_scalar']:
+        rel = abs(io['power1'] - io['power0']) / io['power0']
+        tol = 2e-3 if c['scale'] < 1 else 1e-3      # unchanged tree: <= 1.8e-4 / 8.1e-5 on seeds 0-5
+        if rel > tol: return f"transmitted power changed by {rel:.3g} (tolerance {tol}) at scale {c['scale']}"
+        if io['amp_err'] > AMP_TOL: return f"rescaled amplitude (x s) differs from the aperture function on the new grid by {io['amp_err']:.3g}"
+        if 'opd_err' in io and io['opd_err'] > OPD_TOL: return f"rescaled OPD differs from the surface on the new grid by {io['opd_err']:.3g} of its scale"
+        if not io['mask_covers_support']: return 'the rescaled mask does not cover the support of the aperture'
     if c['propagate'] and io['img_diff'] > 3e-3: return f"propagated image changed by {io['img_diff']:.3g} of the peak at scale {c['scale']}"
     return None
+
+AMP_TOL = 1e-2     # unchanged tree: <= 1.4e-3 (seeds 0-3); a half-sample registration error gives ~1e-1
+OPD_TOL = 5e-2     # unchanged tree: <= 8e-3 of the OPD scale
